@@ -25,14 +25,14 @@ ASSUMPTIONS = ['faults are Exception subclasses raised by a concrete plugin meth
                'the failing plugin\'s own later calls are don\'t-cares']
 
 KINDS = ['ResA', 'DecoA', 'LoggerA', 'SpanA', 'MetricA', 'AllInOne', 'Missing', 'CtorRaises', 'SwitchedOff', 'ImportExits']
-ACTIVATION = ['OnBool', 'OnInt', 'OnText', 'OffBool', 'OffInt', 'OrderRaises']
+ACTIVATION = ['OnBool', 'OnInt', 'OnText', 'OffBool', 'OffInt', 'OrderRaises', 'NanOrder', 'Nameless']
 ORDERS = ['asc', 'desc', 'equal', 'none']
 PATHS = {'ResA': 'mc.plugs.ResA', 'DecoA': 'mc.plugs.DecoA', 'LoggerA': 'mc.plugs.LoggerA', 'SpanA': 'mc.plugs.SpanA', 'MetricA': 'mc.plugs.MetricA',
          'AllInOne': 'mc.plugs.AllInOne', 'Missing': 'no.such.module.Plugin', 'ImportExits': 'mc.plug_import_exits.Plugin', 'CtorRaises': 'mc.plugs.DecoB', 'SwitchedOff': 'mc.plugs.DefaultActivation',
          'SpanB': 'mc.plugs.SpanB', 'MetricB': 'mc.plugs.MetricB', 'ResB': 'mc.plugs.ResB', 'SwitchedOff2': 'mc.plugs.DefaultActivation2',
          'OnBool': 'mc.plugs.DefaultActivation3', 'OnInt': 'mc.plugs.DefaultActivation3', 'OnText': 'mc.plugs.DefaultActivation3',
-         'OffBool': 'mc.plugs.DefaultActivation4', 'OffInt': 'mc.plugs.DefaultActivation4', 'OrderRaises': 'mc.plugs.OrderRaises'}
-LIVE = {'ResA', 'DecoA', 'LoggerA', 'SpanA', 'MetricA', 'AllInOne', 'SpanB', 'MetricB', 'ResB', 'OnBool', 'OnInt', 'OnText'}
+         'OffBool': 'mc.plugs.DefaultActivation4', 'OffInt': 'mc.plugs.DefaultActivation4', 'OrderRaises': 'mc.plugs.OrderRaises', 'NanOrder': 'mc.plugs.NanOrder', 'Nameless': 'mc.plugs.NamelessRes'}
+LIVE = {'ResA', 'DecoA', 'LoggerA', 'SpanA', 'MetricA', 'AllInOne', 'SpanB', 'MetricB', 'ResB', 'OnBool', 'OnInt', 'OnText', 'Nameless'}
 SWITCH = {'OnBool': ('PLUGIN_DEFAULTACTIVATION3', True), 'OnInt': ('PLUGIN_DEFAULTACTIVATION3', 1), 'OnText': ('PLUGIN_DEFAULTACTIVATION3', 'True'),
           'OffBool': ('PLUGIN_DEFAULTACTIVATION4', False), 'OffInt': ('PLUGIN_DEFAULTACTIVATION4', 0)}
 PROGRAM = 'def f():\n    x = 1\n    y = 2\n    return x + y\n'
@@ -66,6 +66,9 @@ def cases(tier, seed):
     # failures that are not Exceptions (asyncio.CancelledError, SystemExit ... are BaseExceptions): every seam of some representative sets
     for s in (('DecoA', 'LoggerA'), ('ResA', 'ResB'), ('SpanA', 'MetricA'), ('AllInOne', 'DecoA')):
         out.append({'set': list(s), 'orders': 'asc', 'exc': 'base'})
+    # the list of plugins written as a tuple
+    for s in (('DecoA',), ('DecoA', 'LoggerA'), ('ResA', 'SpanA', 'MetricA')):
+        out.append({'set': list(s), 'orders': 'asc', 'plugins_as': 'tuple'})
     out.append({'k': 'builtins'})
     return out
 
@@ -101,6 +104,8 @@ def scenario(desc, fault_at=None, fault_pair=None):
                                          metrics=[Metric(name='m', type=MetricType.COUNTER)])])
     chan = rig.FakeChannel(poll_handler=poll, send_handler=lambda r, m: SnapshotResponse())
     custom = {'PLUGINS': [PATHS[n] for n in names], 'NO_TRACE': True}
+    if desc.get('plugins_as') == 'tuple':
+        custom['PLUGINS'] = tuple(custom['PLUGINS'])
     if 'SwitchedOff' in names:
         custom['PLUGIN_DEFAULTACTIVATION'] = 'False'
     if 'SwitchedOff2' in names:
@@ -114,7 +119,7 @@ def scenario(desc, fault_at=None, fault_pair=None):
             w.deep.start()
         except BaseException as e:
             obs['start_exc'] = repr(e)
-        obs['loaded'] = [p.name for p in w.config.plugins]
+        obs['loaded'] = [type(p).__name__ for p in w.config.plugins]      # (the class names; the plugins' own names are the same, where they have one)
         obs['started'] = w.deep.started
         t0 = time.time()
         while not w.deep.trigger_handler._tp_config and time.time() - t0 < 15 and obs['start_exc'] is None:
@@ -188,8 +193,9 @@ def run_case(ctx, desc):
     if base['start_exc'] or base['shutdown_exc'] or base['escaped']:
         ctx.violation('C20/fault-free-run-failed', f'{label}: start={base["start_exc"]} shutdown={base["shutdown_exc"]} escaped={base["escaped"][:1]}', desc)
         return
-    if 'OrderRaises' in names:
-        base['loaded'] = [p for p in base['loaded'] if p != 'OrderRaises']      # where (and whether) the plugin without an order lands is not defined
+    for odd in ('OrderRaises', 'NanOrder'):
+        if odd in names:
+            base['loaded'] = [p for p in base['loaded'] if p != odd]      # where (and whether) the plugin without a usable order lands is not defined
     if base['loaded'] != exp_loaded:
         feat = 'order' if sorted(base['loaded']) == sorted(exp_loaded) else 'membership'
         ctx.violation(f'C20/load-plugins/{feat}', f'{label}: loaded {base["loaded"]}, expected {exp_loaded}', desc)
@@ -268,7 +274,7 @@ def run_case(ctx, desc):
         ga, gr = attrs_of(obs['sent']), resource_of(obs['polls'])
         if what == 'decorate' or loading:
             own = {'DecoA': ['deco_DecoA'], 'AllInOne': ['deco_all'], 'DecoB': ['deco_DecoB'], 'DefaultActivation3': ['deco_default3'],
-                   'OrderRaises': ['deco_order_raises'], 'DefaultActivation': ['deco_default']}.get(who, [])
+                   'OrderRaises': ['deco_order_raises'], 'DefaultActivation': ['deco_default'], 'NanOrder': ['deco_nan_order']}.get(who, [])
             exp = [{k_: v for k_, v in a.items() if k_ not in own} for a in base_attrs]
         else:
             exp = base_attrs
@@ -276,7 +282,7 @@ def run_case(ctx, desc):
             ctx.violation(f'C20/snapshot-decorations/{what}', f'{flabel}: snapshot attributes {ga}, expected {exp}', case)
             continue
         if what == 'resource' or loading:
-            own = {'ResA': ['res_ResA'], 'ResB': ['res_ResB'], 'AllInOne': ['res_all']}.get(who, [])
+            own = {'ResA': ['res_ResA'], 'ResB': ['res_ResB'], 'AllInOne': ['res_all'], 'NamelessRes': ['res_NamelessRes']}.get(who, [])
             expr = {k_: v for k_, v in base_res.items() if k_ not in own}
         else:
             expr = base_res
